@@ -34,6 +34,10 @@ GEN_SPEC = {"imports": ["From God Require Import C03.GenEnv."], "items": [
     {"kind": "calls", "file": "api/engine.go", "func": "engine.addRoutes", "as": "add_routes_calls"},
     {"kind": "calls", "file": "api/server.go", "func": "Server.AddRoutes", "as": "server_add_routes_calls"},
     {"kind": "calls", "file": "api/server.go", "func": "WithPrefix", "as": "with_prefix_calls"},
+    {"kind": "calls", "file": "api/pathvar/params.go", "func": "Vars", "as": "vars_calls"},
+    {"kind": "calls", "file": "api/pathvar/params.go", "func": "WithVars", "as": "withvars_calls"},
+    {"kind": "chain", "file": "api/pathvar/params.go", "func": "WithVars", "call": "context.WithValue", "as": "withvars_args"},
+    {"kind": "chain", "file": "api/handler/authhandler.go", "func": "Authorize", "call": "context.WithValue", "as": "authorize_ctx_args"},
 ]}
 QUICK_N = 300
 THOROUGH_N = 2000
@@ -417,7 +421,39 @@ def _mount_case(rng, tier):
             segs[rng.randrange(len(segs))] = rng.choice(LITS)
         reqs.append({"m": rng.choice(ms + ["HEAD"]), "p": _dirty(rng, segs)})
     reqs += _raw_reqs(rng, [e[1] for e in eff], ms, 3)
+    if rng.random() < 0.55:
+        _add_jwt(rng, mounts, reqs, [x[1:] for _, segs in eff for x in segs if x.startswith(":")])
     return {"kind": "engine", "via": "server" if rng.random() < 0.6 else "engine", "slices": slices, "mounts": mounts, "reqs": reqs}
+
+
+CLAIM_NAMES = ["pathVars", "rest/pathvar/context key: pathVars", "pathvars", "PathVars", "vars", "", "user", "sub", "iss", "id", "x", "y", "z"]
+CLAIM_VALUES = ["evil", 7, True, {"x": "evil", "y": "evil", "z": "evil", "t": "evil", "id": "evil"}, ["a"], None, "", {"pathVars": {"x": "evil"}}]
+
+
+def _add_jwt(rng, mounts, reqs, params):
+    """protect some mounts with WithJwt / WithJwtTransition and give EVERY request a valid token whose custom
+    claims have adversarial names (the routes' own parameter names, pathvar's context key, ...)"""
+    secret, prev = "verif-secret-%d" % rng.randrange(10 ** 6), "verif-prev-secret-%d" % rng.randrange(10 ** 6)
+    plain = False
+    chosen = [mt for mt in mounts if rng.random() < 0.6] or [rng.choice(mounts)]
+    for mt in chosen:
+        if rng.random() < 0.5:
+            opt, plain = {"o": "jwt", "v": secret}, True
+        else:
+            opt = {"o": "jwtx", "v": secret, "p": prev}
+        mt["opts"].insert(rng.randint(0, len(mt["opts"])), opt)
+    names = CLAIM_NAMES + list(params) * 3
+    for q in reqs:
+        q["sec"] = secret if plain or rng.random() < 0.5 else prev
+        claims, used = [], set()
+        for _ in range(rng.choice([0, 1, 2, 3, 4, 6])):
+            k = rng.choice(names)
+            if k not in used:
+                used.add(k)
+                claims.append({"k": k, "v": rng.choice(CLAIM_VALUES)})
+        if "pathVars" not in used and rng.random() < 0.4:
+            claims.insert(rng.randint(0, len(claims)), {"k": "pathVars", "v": rng.choice(CLAIM_VALUES)})
+        q["claims"] = claims
 
 
 def generate(rng, tier, n):
@@ -517,6 +553,17 @@ def search(rng, problems):
                             "mounts": [{"slice": 0, "opts": [{"o": "prefix", "v": "/v1"}], "mw": mw, "single": True},
                                        {"slice": 0, "opts": opts2, "mw": 0, "single": True},
                                        {"slice": 1, "opts": opts2 + [{"o": "signature"}], "mw": mw, "single": True}]})
+    # jwt-protected ':name' routes, valid tokens whose claims are named like the parameters / the context key
+    jsl = [_r("GET", "/a/:x"), _r("GET", "/p/:pathVars/:id"), _r("POST", "/:y")]
+    jclaims = [[], [{"k": "x", "v": "evil"}], [{"k": "pathVars", "v": "evil"}], [{"k": "pathVars", "v": {"x": "evil"}}],
+               [{"k": "id", "v": 5}, {"k": "y", "v": None}, {"k": "pathVars", "v": 7}, {"k": "rest/pathvar/context key: pathVars", "v": 1}]]
+    for via in ("server", "engine"):
+        for jopt in ({"o": "jwt", "v": "verif-secret-1"}, {"o": "jwtx", "v": "verif-secret-1", "p": "verif-prev-1"}):
+            out.append({"kind": "engine", "via": via, "slices": [jsl],
+                        "mounts": [{"slice": 0, "opts": [{"o": "prefix", "v": "/v1"}, jopt]}, {"slice": 0, "opts": []}],
+                        "reqs": [dict(q, sec="verif-secret-1", claims=cl) for cl in jclaims for q in
+                                 [{"m": "GET", "p": "/v1/a/7"}, {"m": "GET", "p": "/v1/p/q/9"}, {"m": "POST", "p": "/v1/w"},
+                                  {"m": "GET", "p": "/a/7"}, {"m": "GET", "p": "/v1/zz/zz/zz"}, {"m": "PUT", "p": "/v1/a/7"}]]})
     return out
 
 
@@ -716,6 +763,15 @@ def bucket(case, obs):
             out.append("engine:other-options")
         if any(mt.get("mw") for mt in case["mounts"]):
             out.append("engine:with-middlewares")
+        if any(o["o"] in ("jwt", "jwtx") for mt in case["mounts"] for o in mt["opts"]):
+            out.append("engine:jwt")
+            for q, r in rows:
+                names = {c["k"] for c in q.get("claims", [])}
+                if r["status"] == 200 and r["vars"]:
+                    if names & {k for k, _ in r["vars"]}:
+                        out.append("jwt:claim-named-like-bound-param")
+                    if "pathVars" in names:
+                        out.append("jwt:claim-named-pathVars-with-vars")
     if case["kind"] in ("engine", "router"):
         for q, r in rows:
             if q.get("raw"):
